@@ -96,13 +96,10 @@ fn bit(v: bool) -> Bv {
 
 /// Name of the emitted top module: `<prj>_Top` (or `Top` with omit_project_prefix).
 pub fn top_name(sv: &str, top: &str) -> String {
-    for l in sv.lines() {
-        let t = l.trim_start();
-        if let Some(rest) = t.strip_prefix("module ") {
-            let name: String = rest.chars().take_while(|c| c.is_alphanumeric() || *c == '_').collect();
-            if name == top || name.ends_with(&format!("_{top}")) {
-                return name;
-            }
+    let toks = vcommon::lex::significant(sv, true);
+    for w in toks.windows(2) {
+        if w[0] == "module" && (w[1] == top || w[1].ends_with(&format!("_{top}"))) {
+            return w[1].clone();
         }
     }
     top.to_string()
